@@ -18,4 +18,9 @@ PROFILES = [
     S.profile(min_tasks=2, p_resources=0, task_constraints=(0, 1), optional_rules=(0, 0), resource_constraints=(0, 0), focus=S.TASK_CONSTRAINTS),
     S.profile(min_tasks=2, p_resources=40, task_constraints=(1, 3), optional_rules=(0, 1), resource_constraints=(0, 1), buffers=(0, 1), focus=S.TASK_CONSTRAINTS),
 ]
-prop, run_shard, replay = _sound.make(ID, FAMILIES, "C03.soundness", PROFILES, 130, 1400)
+PROFILES.append(
+    # counting and list constraints on one or two tasks (degenerate counts 0 / all, single-member lists)
+    S.profile(min_tasks=1, max_tasks=2, p_resources=0, task_constraints=(0, 1), optional_rules=(0, 0), resource_constraints=(0, 0), p_optional=20, p_release=5, p_due=5,
+              focus=["ScheduleNTasksInTimeIntervals", "ScheduleNTasksInTimeIntervals", "UnorderedTaskGroup", "OrderedTaskGroup", "TasksContiguous"])
+)
+prop, run_shard, replay = _sound.make(ID, FAMILIES, "C03.soundness", PROFILES, 90, 1000)
